@@ -121,4 +121,113 @@ ASSUME ~LegalDelivery(In1, <<4>>, "separate")
 ASSUME ~LegalDelivery(<<>>, <<0>>, "with-data")
 ASSUME WhyNotD(In1, "decoder", <<>>, <<3, 3>>, "separate", Good1)
        = "HARNESS_Delivery: the recorded reads are not a legal delivery of the input"
+
+(* ------------------------------------------------------------------------------------ *)
+(* VERY LONG LINES: documents and token data in the run-length form.                     *)
+(* The generator runs over every normal run sequence over {*, a, newline} of <= 2 runs   *)
+(* with counts 1, 2, 2^20 + 1 and of 3 runs with counts 1, 2^20 + 1 (MCRInputs):         *)
+(* C17_Lossless / C17_WellBracketed hold in the run-length form, and C17_RunsFaithful    *)
+(* re-checks the accepted streams octet by octet wherever the document can be written    *)
+(* out.                                                                                  *)
+MiB == 1048576
+BIG == MiB + 1
+RCounts == {1, 2, BIG}
+ROctets == {STAR, A, NL}
+RunSet == {<<o, c>> : o \in ROctets, c \in RCounts}
+RECURSIVE RunSeqs(_)
+RunSeqs(n) == IF n = 0 THEN {<<>>}
+              ELSE LET P == RunSeqs(n - 1) IN
+                   P \cup {Append(p, r) : p \in {q \in P : Len(q) = n - 1}, r \in RunSet}
+MCRInputs == {r \in RunSeqs(3) : /\ \A i \in 1..(Len(r) - 1) : Octet(r[i]) # Octet(r[i + 1])
+                                 /\ (Len(r) = 3 => \A i \in 1..3 : Count(r[i]) # 2)}
+MCRMasks == {<<>>, Strong, StrongS, StrongE}
+
+(* the operators of the run-length form against their meaning, exhaustively over short   *)
+(* run sequences (counts 0..3, also not normal ones)                                     *)
+SmallRuns == {<<o, c>> : o \in {A, NL}, c \in 0..3}
+SmallSeqs == UNION {[1..n -> SmallRuns] : n \in 0..3}
+ASSUME \A r \in SmallSeqs :
+  /\ RLen(r) = Len(RExpand(r))
+  /\ RExpand(RNorm(r)) = RExpand(r)
+  /\ \A i \in 1..(Len(RNorm(r)) - 1) : Octet(RNorm(r)[i]) # Octet(RNorm(r)[i + 1])
+  /\ \A i \in 1..Len(RNorm(r)) : Count(RNorm(r)[i]) > 0
+  /\ EndsLineF(TRUE, r) = EndsLine(RExpand(r))
+  /\ \A from \in 0..(RLen(r) + 1), len \in 0..(RLen(r) + 1) :
+        RExpand(RSub(r, from, len)) = SubSeq(RExpand(r), from + 1, IF from + len > RLen(r) THEN RLen(r) ELSE from + len)
+SmallSeqs2 == UNION {[1..n -> SmallRuns] : n \in 0..2}
+ASSUME \A a \in SmallSeqs2, b \in SmallSeqs2 :
+  /\ (RNorm(a) = RNorm(b)) <=> (RExpand(a) = RExpand(b))          \* equality of octet strings = equality of normal forms
+  /\ RExpand(RCat(a, b)) = RExpand(a) \o RExpand(b)               \* concatenation = merge
+  /\ \A pos \in 0..RLen(a) :                                      \* "is the next piece" agrees with the octet form
+        NextPiece([StartF(TRUE, a, "decoder", <<>>) EXCEPT !.pos = pos], b)
+          <=> NextPiece([Start(RExpand(a), "decoder", <<>>) EXCEPT !.pos = pos], RExpand(b))
+
+(* named documents with a line that does not fit into 2^20 octets, in the shapes the     *)
+(* driver records: plain, followed by a short line, inside a span, inside a quote        *)
+TR(d, m) == T(d, m)
+RPlain == <<(<<A, BIG>>)>>
+RThen == <<(<<A, BIG>>), (<<NL, 1>>), (<<98, 1>>)>>
+RSpan == <<(<<STAR, 1>>), (<<A, BIG>>), (<<STAR, 1>>)>>
+RQuote == <<(<<62, 1>>), (<<32, 1>>), (<<A, BIG>>), (<<NL, 1>>), (<<99, 1>>)>>
+GoodRPlain == <<TR(RPlain, <<>>), EOF>>
+GoodRThen == <<TR(<<(<<A, BIG>>), (<<NL, 1>>)>>, <<>>), TR(<<(<<98, 1>>)>>, <<>>), EOF>>
+GoodRSpan == <<TR(<<(<<STAR, 1>>)>>, StrongS), TR(<<(<<A, BIG>>)>>, Strong), TR(<<(<<STAR, 1>>)>>, StrongE), EOF>>
+GoodRQuote == <<[TR(<<(<<62, 1>>), (<<32, 1>>)>>, <<"BlockQuote", "BlockQuoteStart">>) EXCEPT !.q = 1],
+                [TR(<<(<<A, BIG>>), (<<NL, 1>>)>>, <<"BlockQuote">>) EXCEPT !.q = 1],
+                [TR(<<>>, <<"BlockQuote", "BlockQuoteEnd">>) EXCEPT !.q = 1], TR(<<(<<99, 1>>)>>, <<>>), EOF>>
+ASSUME AcceptsR(RPlain, "decoder", <<>>, GoodRPlain)
+ASSUME AcceptsR(RThen, "decoder", <<>>, GoodRThen)
+ASSUME AcceptsR(RSpan, "decoder", <<>>, GoodRSpan)
+ASSUME AcceptsR(RQuote, "decoder", <<>>, GoodRQuote)
+ASSUME AcceptsR(RThen, "decoder", GoodRThen, GoodRThen)
+(* the same tokens, the long one recorded as two adjacent runs of the same octet *)
+ASSUME AcceptsR(RThen, "decoder", GoodRThen,
+                <<TR(<<(<<A, MiB>>), (<<A, 1>>), (<<NL, 1>>)>>, <<>>), TR(<<(<<98, 1>>)>>, <<>>), EOF>>)
+ASSUME AcceptsR(RPlain, "scan", <<>>, GoodRPlain)
+ASSUME WhyNotDF(TRUE, RThen, "decoder", GoodRThen, <<4096, 8192, BIG + 2, BIG + 2>>, "separate", GoodRThen) = ""
+ASSUME WhyNotDF(TRUE, RThen, "decoder", GoodRThen, <<BIG + 2>>, "with-data", GoodRThen) = ""
+
+TooLong == [EOF EXCEPT !.err = "bufio.Scanner: token too long"]
+BadR == <<
+  (* code-like deviation: the decoder's token buffer is capped (1 MiB): a line that does  *)
+  (* not fit ends decoding, the line and everything after it is never delivered           *)
+  [name |-> "token buffer capped: the long line and what follows are never delivered", input |-> RThen,
+   ref |-> <<>>, evs |-> <<TooLong>>,
+   why |-> "C17_Lossless: decoding ended before the end of the input"],
+  [name |-> "token buffer capped, inside a quote: only the quote marker is delivered", input |-> RQuote,
+   ref |-> <<>>, evs |-> <<[TR(<<(<<62, 1>>), (<<32, 1>>)>>, <<"BlockQuote", "BlockQuoteStart">>) EXCEPT !.q = 1], TooLong>>,
+   why |-> "C17_Lossless: decoding ended before the end of the input"],
+  [name |-> "token buffer capped: the long line is delivered cut to 2^20 octets", input |-> RThen,
+   ref |-> <<>>, evs |-> <<TR(<<(<<A, MiB>>)>>, <<>>), TR(<<(<<NL, 1>>)>>, <<>>), TR(<<(<<98, 1>>)>>, <<>>), EOF>>,
+   why |-> "C17_Lossless: token data is not the next piece of the input"],
+  [name |-> "one octet of the long line lost at a buffer boundary", input |-> RThen,
+   ref |-> <<>>, evs |-> <<TR(<<(<<A, MiB>>), (<<NL, 1>>)>>, <<>>), TR(<<(<<98, 1>>)>>, <<>>), EOF>>,
+   why |-> "C17_Lossless: token data is not the next piece of the input"],
+  [name |-> "one octet of the long line duplicated", input |-> RThen,
+   ref |-> <<>>, evs |-> <<TR(<<(<<A, BIG + 1>>), (<<NL, 1>>)>>, <<>>), TR(<<(<<98, 1>>)>>, <<>>), EOF>>,
+   why |-> "C17_Lossless: token data is not the next piece of the input"],
+  [name |-> "one octet inside the long line altered", input |-> RThen,
+   ref |-> <<>>, evs |-> <<TR(<<(<<A, 65536>>), (<<0, 1>>), (<<A, BIG - 65537>>), (<<NL, 1>>)>>, <<>>), TR(<<(<<98, 1>>)>>, <<>>), EOF>>,
+   why |-> "C17_Lossless: token data is not the next piece of the input"],
+  [name |-> "long line split into two tokens when delivered in pieces", input |-> RThen,
+   ref |-> GoodRThen, evs |-> <<TR(<<(<<A, MiB>>)>>, <<>>), TR(<<(<<A, 1>>), (<<NL, 1>>)>>, <<>>), TR(<<(<<98, 1>>)>>, <<>>), EOF>>,
+   why |-> "C17_ChunkIndependent: token differs from the whole-input read"],
+  [name |-> "span around the long line never closed", input |-> RSpan,
+   ref |-> <<>>, evs |-> <<TR(<<(<<STAR, 1>>)>>, StrongS), TR(<<(<<A, BIG>>), (<<STAR, 1>>)>>, Strong), EOF>>,
+   why |-> "C17_ClosedBeforeLineEnd: input ends with a span open"],
+  [name |-> "long line ends with a span open", input |-> <<(<<STAR, 1>>), (<<A, BIG>>), (<<NL, 1>>)>>,
+   ref |-> <<>>, evs |-> <<TR(<<(<<STAR, 1>>)>>, StrongS), TR(<<(<<A, BIG>>), (<<NL, 1>>)>>, Strong), EOF>>,
+   why |-> "C17_ClosedBeforeLineEnd: line ends with a span open"],
+  [name |-> "token data is not a run sequence", input |-> RPlain,
+   ref |-> <<>>, evs |-> <<TR(<<(<<A, 0 - 1>>)>>, <<>>), EOF>>,
+   why |-> "C17_Lossless: token data is not the next piece of the input"] >>
+ASSUME \A i \in 1..Len(BadR) :
+  \/ WhyNotR(BadR[i].input, "decoder", BadR[i].ref, BadR[i].evs) = BadR[i].why
+  \/ PrintT(<<"BAD STREAM (RUNS) NOT REJECTED AS EXPECTED", BadR[i].name, WhyNotR(BadR[i].input, "decoder", BadR[i].ref, BadR[i].evs)>>) /\ FALSE
+(* the split stream alone satisfies every other clause: only chunk independence rejects it *)
+ASSUME AcceptsR(RThen, "decoder", <<>>, BadR[7].evs)
+ASSUME WhyNotDF(TRUE, RThen, "decoder", <<>>, <<BIG + 1, BIG + 1>>, "separate", GoodRThen)
+       = "HARNESS_Delivery: the recorded reads are not a legal delivery of the input"
+ASSUME WhyNotDF(TRUE, <<(<<A, BIG>>), <<NL>>>>, "decoder", <<>>, <<BIG + 1, BIG + 1>>, "separate", <<EOF>>)
+       = "HARNESS_Runs: the recorded document is not a sequence of <<octet, count>> runs"
 =============================================================================
